@@ -171,7 +171,7 @@ impl Family for B1 {
     fn budget(&self, tier: Tier, p: &str) -> u64 {
         let q = match p {
             "C12" => 160,
-            _ => 60,
+            _ => 30,
         };
         q * match tier {
             Tier::Quick => 1,
@@ -233,13 +233,14 @@ impl Family for B1 {
     fn execute(&self, s: &Scn) -> RunOut {
         let mut out = RunOut::default();
         out.props = vec!["C12", "C07", "C08"];
-        let w = world(s.seed);
+        let w = world(s.seed % 16); // small pool of key worlds: the reference scrypt cache hits
         let pt = s.plain.bytes();
         let pubs: Vec<[u8; 32]> = w.sks.iter().map(rp::x25519_base).collect();
         let mut th: u64 = 0;
         // the input artefact
         let mut r = Rng::new(s.seed ^ 0xB1);
-        let (e, payload, fsalt) = (r.arr32(), r.arr32(), r.arr32());
+        let (e, payload) = (r.arr32(), r.arr32());
+        let fsalt = Rng::new(s.seed % 16).arr32();
         let input: Vec<u8> = match s.op {
             Op::Encrypt | Op::PassEncrypt => pt.clone(),
             Op::Decrypt => rf::write_key_file(
